@@ -79,8 +79,9 @@ TCleanStart ==
      IN IF t \notin Threads THEN Bad("NC:cleaner-called-from-unknown-goroutine")
         ELSE IF N # {} THEN Good(N, D)
         ELSE IF Running(AnyS) \ {t} # {} THEN Bad("C12:second-cleaner-while-cleaning")
-        ELSE IF Using(AnyS) \ {t} # {} THEN Bad("C12:cleaning-while-action-running")
-        ELSE IF AnyS.pc[t] \in {"idle", "using", "ac1", "rc1"} THEN Bad("NC:cleaner-called-outside-acquire-release")
+        \* (also on behalf of a thread whose own action has not ended yet)
+        ELSE IF Using(AnyS) # {} THEN Bad("C12:cleaning-while-action-running")
+        ELSE IF AnyS.pc[t] \in {"idle", "ac1", "rc1"} THEN Bad("NC:cleaner-called-outside-acquire-release")
         ELSE Bad("C12:cleaning-not-at-idle-busy-edge")
 
 TCleanEnd ==
